@@ -27,7 +27,7 @@ ID = "C04"
 CHECK = "c04_sessions"
 LEVEL = "exploration"
 RULE = (
-    "A case is one simulated run: 2-8 simulated processes, each with 1-2 long-lived handles (fresh, or unpickled "
+    "A case is one simulated run: 2-8 (a few: 12, thorough tier also 16) simulated processes, each with 1-2 long-lived handles (fresh, or unpickled "
     "joblib-style from a master handle; relative / dotted / absolute spellings of the same path; collection buffer "
     "sizes default(-1), 0, small, large) on 1-2 libraries, each running 1-6 reading()/writing() sessions with "
     "globally unique values; the seeded scheduler (random / sticky / PCT / starve-one / lowest) decides every "
@@ -121,7 +121,7 @@ def budget(tier):
 # ---------------------------------------------------------------------------- plan generation
 def gen_plan(r, tier, index):
     nlibs = 1 if r.random() < 0.75 else 2
-    nproc = r.choice([2, 2, 3, 3, 3, 4, 4, 5, 6, 8])
+    nproc = r.choice([2, 2, 3, 3, 3, 4, 4, 5, 6, 8] * 3 + ([12] if tier == "quick" else [12, 12, 16, 16]))
     fault_budget = r.choice([0, 0, 0, 1, 1, 1, 1, 2, 2])
     create_race = r.random() < 0.1
     big = r.choice([1 << 20, 1 << 20, 300])
